@@ -242,6 +242,27 @@ theorem crossOff_spec (maxX step : ℕ) : ∀ fuel n (row : Row), maxX < n + fue
         omega
       · exact fun h1 => h1.1
 
+theorem bitsAt_clearBit_le (row : Row) (n w : ℕ) (hw : w < row.size) :
+    bitsAt (clearBit row n) w ≤ bitsAt row w := by
+  unfold bitsAt clearBit
+  rw [getD_modify _ _ _ _ _ hw]
+  split
+  · exact Nat.and_le_left
+  · exact le_rfl
+
+/-- the cross-off loop only clears bits -/
+theorem crossOff_le (maxX step : ℕ) : ∀ fuel n (row : Row) w, w < row.size →
+    bitsAt (crossOff maxX step fuel n row) w ≤ bitsAt row w := by
+  intro fuel
+  induction fuel with
+  | zero => intro n row w _; exact le_rfl
+  | succ fuel ih =>
+    intro n row w hw
+    simp only [crossOff]
+    split
+    · exact le_trans (ih _ _ w (by rw [size_clearBit]; exact hw)) (bitsAt_clearBit_le _ _ _ hw)
+    · exact le_rfl
+
 /-- the prefix-count loop writes `c w % 2^32` for any `c` that accumulates the popcounts; bits are unchanged -/
 theorem countLoop_spec (c : ℕ → ℕ) : ∀ n j (row : Row), j + n = row.size →
     (∀ v, j ≤ v → v < row.size → c (v + 1) = c v + popcount64 (bitsAt row v)) →
